@@ -1,11 +1,13 @@
 //go:build verif
 
-package forward
+package core
 
 import (
+	"context"
 	"fmt"
 	"runtime"
 	"strings"
+	"sync"
 	"testing"
 	"time"
 
@@ -15,23 +17,32 @@ import (
 
 	"github.com/bluenviron/mediamtx/internal/conf"
 	"github.com/bluenviron/mediamtx/internal/defs"
+	"github.com/bluenviron/mediamtx/internal/externalcmd"
+	"github.com/bluenviron/mediamtx/internal/forward"
+	"github.com/bluenviron/mediamtx/internal/logger"
 	"github.com/bluenviron/mediamtx/internal/stream"
 	"github.com/bluenviron/mediamtx/internal/test"
 	"github.com/bluenviron/mediamtx/internal/verifutil"
 )
 
-// Harness for C39: drives a real forward.Manager whose destinations point at a closed loopback port
+// Harness for C39.  Two worlds, chosen by the reset op:
+//   reset <confs>        manager level: a bare forward.Manager driven through Initialize/Start/Stop/ReloadConf;
+//   reset @path <confs>  path level: the REAL core.path (real initialize()/run() loop, real forward.Manager
+//                        inside it) with `start` = a publisher is added (setAvailable), `stop` = it is removed
+//                        (setNotAvailable), `reload` = pathManager's reloadConf with the new forward list;
+//                        observed only through path.APIForwardDestList/Get and the goroutine dump.
+// Manager level: drives a real forward.Manager whose destinations point at a closed loopback port
 // (the forwarder goroutines run, fail to connect and sit in their retry pause), and reports after
 // every operation the manager's in-package state in canonical form.
 
 var (
-	verifC39M        *Manager
+	verifC39M        *forward.Manager
 	verifC39IDs      map[uuid.UUID]int
 	verifC39IDBase   int
 	verifC39Epochs   map[chan struct{}]int
 	verifC39EpBase   int
 	verifC39Seen     []uuid.UUID
-	verifC39Ptr      map[uuid.UUID]*DestHandler
+	verifC39Ptr      map[uuid.UUID]*forward.DestHandler
 	verifC39Avail    bool
 	verifC39Streams  map[*stream.Stream]int
 	verifC39Baseline int
@@ -76,8 +87,8 @@ func verifC39FmtConf(c conf.ForwardDest) string {
 var verifC39StackBuf = make([]byte, 256<<10)
 
 // Forwarder goroutines of this package, from the goroutine dump: goroutines created by
-// (*DestHandler).start (counted even before they have run), or — should start be renamed — goroutines
-// with a (*DestHandler).run frame.
+// (*forward.DestHandler).start (counted even before they have run), or — should start be renamed — goroutines
+// with a (*forward.DestHandler).run frame.
 func verifC39Goroutines() int {
 	for {
 		n := runtime.Stack(verifC39StackBuf, true)
@@ -97,22 +108,22 @@ func verifC39Goroutines() int {
 // ---- optional seams into unexported state (one shim file each, see shim_*.go; a shim that stops
 // compiling is dropped by ./check and the harness goes on with the exported surface) ----
 
-func verifC39Handlers(m *Manager) []*DestHandler {
-	if f, ok := verifutil.Funcs["c39_handlers"].(func(*Manager) []*DestHandler); ok {
+func verifC39Handlers(m *forward.Manager) []*forward.DestHandler {
+	if f, ok := verifutil.Funcs["c39_handlers"].(func(*forward.Manager) []*forward.DestHandler); ok {
 		return f(m)
 	}
 	return nil
 }
 
-func verifC39Done(h *DestHandler) (chan struct{}, bool) {
-	if f, ok := verifutil.Funcs["c39_done"].(func(*DestHandler) chan struct{}); ok {
+func verifC39Done(h *forward.DestHandler) (chan struct{}, bool) {
+	if f, ok := verifutil.Funcs["c39_done"].(func(*forward.DestHandler) chan struct{}); ok {
 		return f(h), true
 	}
 	return nil, false
 }
 
-func verifC39StartedTok(m *Manager) string {
-	if f, ok := verifutil.Funcs["c39_started"].(func(*Manager) bool); ok {
+func verifC39StartedTok(m *forward.Manager) string {
+	if f, ok := verifutil.Funcs["c39_started"].(func(*forward.Manager) bool); ok {
 		if f(m) {
 			return "1"
 		}
@@ -121,15 +132,15 @@ func verifC39StartedTok(m *Manager) string {
 	return "x"
 }
 
-func verifC39StreamTok(m *Manager) string {
-	if f, ok := verifutil.Funcs["c39_stream"].(func(*Manager) *stream.Stream); ok {
+func verifC39StreamTok(m *forward.Manager) string {
+	if f, ok := verifutil.Funcs["c39_stream"].(func(*forward.Manager) *stream.Stream); ok {
 		return fmt.Sprint(verifC39Streams[f(m)])
 	}
 	return "x"
 }
 
-func verifC39Cancel(h *DestHandler) bool {
-	if f, ok := verifutil.Funcs["c39_cancel"].(func(*DestHandler)); ok {
+func verifC39Cancel(h *forward.DestHandler) bool {
+	if f, ok := verifutil.Funcs["c39_cancel"].(func(*forward.DestHandler)); ok {
 		f(h)
 		return true
 	}
@@ -137,7 +148,7 @@ func verifC39Cancel(h *DestHandler) bool {
 }
 
 // is the goroutine of the handler's current done channel alive?  (known only through the done seam)
-func verifC39Live(h *DestHandler) (live bool, known bool) {
+func verifC39Live(h *forward.DestHandler) (live bool, known bool) {
 	d, ok := verifC39Done(h)
 	if !ok {
 		return false, false
@@ -153,11 +164,15 @@ func verifC39Live(h *DestHandler) (live bool, known bool) {
 	}
 }
 
-func verifC39NewStream() *stream.Stream {
-	desc := &description.Session{Medias: []*description.Media{{
+func verifC39Desc() *description.Session {
+	return &description.Session{Medias: []*description.Media{{
 		Type:    description.MediaTypeVideo,
 		Formats: []format.Format{test.FormatH264},
 	}}}
+}
+
+func verifC39NewStream() *stream.Stream {
+	desc := verifC39Desc()
 	strm := &stream.Stream{
 		OrigDesc:          desc,
 		WriteQueueSize:    512,
@@ -201,30 +216,107 @@ func verifC39NonIdle(items []defs.APIForwardDest) int {
 	return n
 }
 
+// ---- the two worlds ----
+
+// what is observed: the destination list as the API shows it, and (manager level only) the manager
+// itself for the optional seams
+func verifC39List() []defs.APIForwardDest {
+	if verifC39P != nil {
+		return verifC39P.pa.APIForwardDestList().Items
+	}
+	return verifC39M.APIList().Items
+}
+
+func verifC39Get(id uuid.UUID) (*defs.APIForwardDest, error) {
+	if verifC39P != nil {
+		return verifC39P.pa.APIForwardDestGet(id)
+	}
+	return verifC39M.APIGet(id)
+}
+
+// path level: pathParent stub (what pathManager would be) and a publisher stub
+type verifC39PathWorld struct {
+	pa   *path
+	pool *externalcmd.Pool
+	wg   sync.WaitGroup
+	pub  *verifC39Pub
+	npub int
+}
+
+func (w *verifC39PathWorld) Log(logger.Level, string, ...any) {}
+func (w *verifC39PathWorld) setPathReady(*path)               {}
+func (w *verifC39PathWorld) setPathNotReady(*path)            {}
+func (w *verifC39PathWorld) closePathIfIdle(*path)            {}
+func (w *verifC39PathWorld) removePath(*path)                 {}
+func (w *verifC39PathWorld) AddReader(defs.PathAddReaderReq) (*defs.PathAddReaderRes, error) {
+	return nil, fmt.Errorf("not available in harness")
+}
+
+type verifC39Pub struct{ id int }
+
+func (p *verifC39Pub) Log(logger.Level, string, ...any) {}
+func (p *verifC39Pub) Close()                           {}
+func (p *verifC39Pub) APISourceDescribe() *defs.APIPathSource {
+	return &defs.APIPathSource{Type: "rtspSession", ID: fmt.Sprint(p.id)}
+}
+
+var verifC39P *verifC39PathWorld
+
+func verifC39PathConf(fw conf.Forward) *conf.Path {
+	return &conf.Path{Name: "p", Source: "publisher", Forward: fw}
+}
+
+func verifC39NewPath(fw conf.Forward) {
+	w := &verifC39PathWorld{pool: &externalcmd.Pool{}}
+	w.pool.Initialize()
+	w.pa = &path{
+		parentCtx: context.Background(), conf: verifC39PathConf(fw), name: "p", wg: &w.wg,
+		externalCmdPool: w.pool, parent: w,
+		writeQueueSize: 512, rtpMaxPayloadSize: 1450, rtspAddress: ":8554",
+		readTimeout: conf.Duration(2 * time.Second), writeTimeout: conf.Duration(2 * time.Second),
+	}
+	verifC39P = w
+	w.pa.initialize()
+}
+
+// a request the path loop answers only after everything queued before it has been handled
+func (w *verifC39PathWorld) barrier() {
+	w.pa.APIPathsGet(pathAPIPathsGetReq{}) //nolint:errcheck
+}
+
+func (w *verifC39PathWorld) teardown() {
+	w.pa.close()
+	w.pa.wait()
+	w.pool.Close()
+}
+
 // First-seen handlers/channels get the number base+index (the model numbers them the same way: the
 // object created for list index i by an operation is nextId+i / nextEpoch+i).
 func verifC39Observe(advanceIDs, advanceEpochs bool) string {
-	m := verifC39M
+	m := verifC39M // nil at path level: no seam into the manager is used there
 
 	// quiescence, through the exported surface only: every forwarder goroutine that exists has left
 	// the idle state (it never returns to it before it exits) and every goroutine whose handler is idle
 	// has returned.  In a correct tree this settles within microseconds; otherwise bounded wait.
 	deadline := time.Now().Add(1500 * time.Millisecond)
-	for verifC39Goroutines()-verifC39Baseline != verifC39NonIdle(m.APIList().Items) {
+	for verifC39Goroutines()-verifC39Baseline != verifC39NonIdle(verifC39List()) {
 		if time.Now().After(deadline) {
 			// Forwarder goroutines and running handlers do not add up: a goroutine was orphaned or never
-			// stopped.  This answer is reported (the spec fails on it); everything after it answers
-			// "harness-gave-up" at once: an orphaned goroutine wakes up after retryPause (5 s) and, once
-			// its handler is stopped, closes the handler's done channel a second time — a panic that would
-			// kill this process and with it every answer collected so far.
+			// stopped — or a listed destination was never started.  This answer is reported (the spec
+			// fails on it); everything after it answers "harness-gave-up" at once: an orphaned goroutine
+			// wakes up after retryPause (5 s) and, once its handler is stopped, closes the handler's done
+			// channel a second time — a panic that would kill this process and every answer collected.
 			verifC39Wasted = verifC39WasteBudget + 1
 			break
 		}
 		time.Sleep(200 * time.Microsecond)
 	}
 
-	items := m.APIList().Items
-	hs := verifC39Handlers(m)
+	items := verifC39List()
+	var hs []*forward.DestHandler
+	if m != nil {
+		hs = verifC39Handlers(m)
+	}
 	if len(hs) != len(items) {
 		hs = nil
 	}
@@ -283,11 +375,14 @@ func verifC39Observe(advanceIDs, advanceEpochs bool) string {
 		}
 		return "0"
 	}
+	st, tk := "x", "x"
+	if m != nil {
+		st, tk = verifC39StartedTok(m), verifC39StreamTok(m)
+	}
 	var sb strings.Builder
-	fmt.Fprintf(&sb, "s=%s t=%s g=%d r=%d rl=%s h=", verifC39StartedTok(m), verifC39StreamTok(m),
-		verifC39Goroutines()-verifC39Baseline, retired, rls)
+	fmt.Fprintf(&sb, "s=%s t=%s g=%d r=%d rl=%s h=", st, tk, verifC39Goroutines()-verifC39Baseline, retired, rls)
 	for i, it := range items {
-		if got, err := m.APIGet(it.ID); err != nil || got.ID != it.ID || got.Conf != it.Conf {
+		if got, err := verifC39Get(it.ID); err != nil || got.ID != it.ID || got.Conf != it.Conf {
 			return "apiget-differs"
 		}
 		api := it.State != defs.APIForwardDestStateIdle
@@ -308,6 +403,11 @@ func verifC39Observe(advanceIDs, advanceEpochs bool) string {
 func verifC39Cleanup() {
 	// stop whatever the previous history left running (not part of any answer); after a panic the
 	// manager may hold its mutex for ever, so nothing that locks is called on a dead manager
+	if verifC39P != nil {
+		w := verifC39P
+		verifC39P = nil
+		verifC39Timed(w.teardown)
+	}
 	for _, id := range verifC39Seen {
 		if h := verifC39Ptr[id]; h != nil {
 			verifC39Cancel(h)
@@ -316,12 +416,14 @@ func verifC39Cleanup() {
 	if verifC39M != nil && !verifC39Dead && verifC39Avail {
 		verifC39Timed(verifC39M.Stop) // the exported way
 	}
+	verifC39M = nil
 	verifC39Avail = false
 	for s := range verifC39Streams {
 		if s != nil {
 			s.Close()
 		}
 	}
+	verifC39Streams = map[*stream.Stream]int{nil: 0}
 }
 
 func verifC39Exec(op string) string {
@@ -329,6 +431,7 @@ func verifC39Exec(op string) string {
 		return "harness-gave-up"
 	}
 	f := strings.Fields(op)
+	pathLevel := verifC39P != nil
 	switch f[0] {
 	case "reset":
 		verifC39Cleanup()
@@ -337,9 +440,7 @@ func verifC39Exec(op string) string {
 		verifC39Epochs = map[chan struct{}]int{}
 		verifC39EpBase = 1
 		verifC39Seen = nil
-		verifC39Ptr = map[uuid.UUID]*DestHandler{}
-		verifC39Avail = false
-		verifC39Streams = map[*stream.Stream]int{nil: 0}
+		verifC39Ptr = map[uuid.UUID]*forward.DestHandler{}
 		verifC39Dead = false
 		// every goroutine of the previous history has been cancelled and has closed its done channel;
 		// wait until they have really returned (normally microseconds)
@@ -351,7 +452,15 @@ func verifC39Exec(op string) string {
 			time.Sleep(200 * time.Microsecond)
 		}
 		verifC39Baseline = verifC39Goroutines()
-		verifC39M = &Manager{
+		if len(f) > 1 && f[1] == "@path" {
+			fw := verifC39ParseConfs(f[2:])
+			if r := verifC39Timed(func() { verifC39NewPath(fw) }); r != "" {
+				verifC39Dead = true
+				return r
+			}
+			return verifC39Observe(true, false)
+		}
+		verifC39M = &forward.Manager{
 			ReadTimeout:  conf.Duration(2 * time.Second),
 			WriteTimeout: conf.Duration(2 * time.Second),
 			PathName:     "p",
@@ -368,9 +477,33 @@ func verifC39Exec(op string) string {
 		if verifC39Dead {
 			return "dead"
 		}
+		verifC39Avail = true
+		if pathLevel {
+			w := verifC39P
+			w.npub++
+			w.pub = &verifC39Pub{id: w.npub}
+			res := ""
+			if r := verifC39Timed(func() {
+				w.pa.pendingRequests.Add(1) // what pathManager does before it hands the request on
+				_, err := w.pa.addPublisher(defs.PathAddPublisherReq{
+					Author: w.pub, Desc: verifC39Desc(), ReplaceNTP: true,
+					AccessRequest: defs.PathAccessRequest{Name: "p", SkipAuth: true, Publish: true},
+					Res:           make(chan defs.PathAddPublisherRes),
+				})
+				if err != nil {
+					res = "addpublisher-failed " + err.Error()
+				}
+			}); r != "" {
+				verifC39Dead = true
+				return r
+			}
+			if res != "" {
+				return res
+			}
+			return verifC39Observe(false, true)
+		}
 		strm := verifC39NewStream()
 		verifC39Streams[strm] = verifutil.Atoi(f[1])
-		verifC39Avail = true
 		if r := verifC39Timed(func() { verifC39M.Start(strm) }); r != "" {
 			verifC39Dead = true
 			return r
@@ -382,6 +515,14 @@ func verifC39Exec(op string) string {
 			return "dead"
 		}
 		verifC39Avail = false
+		if pathLevel {
+			w := verifC39P
+			if r := verifC39Timed(func() { w.pa.RemovePublisher(defs.PathRemovePublisherReq{Author: w.pub}) }); r != "" {
+				verifC39Dead = true
+				return r
+			}
+			return verifC39Observe(false, false)
+		}
 		if r := verifC39Timed(verifC39M.Stop); r != "" {
 			verifC39Dead = true
 			return r
@@ -394,6 +535,14 @@ func verifC39Exec(op string) string {
 		}
 		fw := verifC39ParseConfs(f[1:])
 		wasStarted := verifC39Avail // Start/Stop alternate in every generated history that reaches this point
+		if pathLevel {
+			w := verifC39P
+			if r := verifC39Timed(func() { w.pa.reloadConf(verifC39PathConf(fw)); w.barrier() }); r != "" {
+				verifC39Dead = true
+				return r
+			}
+			return verifC39Observe(true, wasStarted)
+		}
 		if r := verifC39Timed(func() { verifC39M.ReloadConf(fw) }); r != "" {
 			verifC39Dead = true
 			return r
@@ -480,13 +629,21 @@ func verifC39Mutate(r *verifutil.Rand, cur []string, plain bool) []string {
 }
 
 func verifC39Gen(r *verifutil.Rand, i int, thorough bool) []string {
-	misuse := r.Chance(1, 20)
+	pathLevel := r.Chance(1, 3)
+	misuse := !pathLevel && r.Chance(1, 20) // the path itself never misuses its manager
 	n0 := r.Intn(5)
+	if pathLevel && r.Bool() {
+		n0 = 0 // a path without destinations whose stream becomes available, destinations added later
+	}
 	var cur []string
 	for j := 0; j < n0; j++ {
 		cur = append(cur, verifC39Conf(r, misuse))
 	}
-	ops := []string{strings.TrimSpace("reset " + strings.Join(cur, " "))}
+	head := "reset "
+	if pathLevel {
+		head = "reset @path "
+	}
+	ops := []string{strings.TrimSpace(head + strings.Join(cur, " "))}
 	n := 4 + r.Intn(9)
 	if thorough {
 		n = 4 + r.Intn(24)
@@ -528,6 +685,10 @@ func TestVerifC39(t *testing.T) {
 			switch {
 			case strings.HasPrefix(impl, "panic"):
 				return w + "/panic"
+			case strings.HasPrefix(impl, "s=x") && strings.Contains(impl, "|1|0|1|"):
+				return w + "/path-forwarding"
+			case strings.HasPrefix(impl, "s=x"):
+				return w + "/path-idle"
 			case strings.HasPrefix(impl, "s=1"):
 				return w + "/started"
 			case strings.HasPrefix(impl, "s=0"):
